@@ -1,7 +1,7 @@
 (* C12 — one induction over histories (all events of all sessions, in any interleaving) shared by
    every invariant: a committed-state invariant CI and a per-transaction invariant TI are preserved
    by every step provided five local conditions hold. *)
-From V Require Import SQLCons.Model SQLCons.Basics SQLCons.Steps.
+From V Require Import SQLCons.Model SQLCons.Spec SQLCons.Basics SQLCons.Steps.
 From Coq Require Import ZArith Lia.
 From Coq Require Import ZifyN ZifyNat ZifyBool.
 Open Scope N_scope.
@@ -15,13 +15,6 @@ Record cstep (c c' : cstate) : Prop := mkCstep {
   cs_ext : ext c c';
   cs_cat : (c_cat c' = c_cat c /\ c_uidx c' = c_uidx c /\ c_nidx c' = c_nidx c) \/ c_last c < c_cat c'
 }.
-
-Definition ev_safe (g : cfg) (fx : fixes) (nn ck : bool) (ev : event) : bool :=
-  match snd ev with
-  | AStmt s => stmt_safe g fx nn ck s
-  | AAuto ss => forallb (stmt_safe g fx nn ck) ss
-  | _ => true
-  end.
 
 Lemma stmt_safe_ff g fx s : stmt_safe g fx false false s = true.
 Proof. destruct s as [[| | |[|] x] rows|w [|] x|w]; reflexivity. Qed.
